@@ -181,6 +181,13 @@ def build(tier, seed):
                 members.append(('split=%d' % k, d, c))
             family('split', members)
     if tier == 'thorough':
+        # the size limit: 65 534 variants with every feature in table / cursor modes (match modes would only repeat 65 534 arms)
+        hv = list(range(0, 65534))
+        add(D.make_decl('u16', 'gapless_65534', hv, 'asc', 'implicit', 'default', rnd), D.full_config('table', 'table', 'table', 'next_and_back', True, split=1), kind='huge')
+        hv2 = list(range(-30000, 0)) + list(range(5, 20000)) + list(range(100000, 115529))
+        add(D.make_decl('i32', 'holes_65524', hv2, 'asc', 'mixed', 'default', rnd), D.full_config('table', 'table', 'table', 'table', True, split=1), kind='huge')
+        hv3 = [v for v in range(0, 24000) if v % 4 != 3]
+        add(D.make_decl('u64', 'holes_6000_runs', hv3, 'asc', 'explicit', 'default', rnd), D.full_config('table', 'table', 'match', 'next_and_back', True, split=1), kind='huge')
         # seeded random members of the same classes
         for _ in range(200):
             r = rnd.choice(D.REPRS)
